@@ -27,11 +27,11 @@ Lits == {"a", "b"}
 TplSegs == Lits \cup {"*", "**", "V1", "VL", "VM"}
 
 \* request path segment tokens: raw text, its single-segment decoding and its
-\* multi-segment decoding (%2F stays encoded)
-PathToks == {"a", "b", "c", "e", "p25", "p2F", "dbl", "uni"}
-RawOf(t) == CASE t = "e" -> "" [] t = "p25" -> "100%25" [] t = "p2F" -> "x%2Fy" [] t = "dbl" -> "%2541"
+\* multi-segment decoding (%2F stays encoded - and only %2F: "p3F" is another escape ending in F)
+PathToks == {"a", "b", "c", "e", "p25", "p2F", "p3F", "dbl", "uni"}
+RawOf(t) == CASE t = "e" -> "" [] t = "p25" -> "100%25" [] t = "p2F" -> "x%2Fy" [] t = "p3F" -> "w%3Fz" [] t = "dbl" -> "%2541"
               [] t = "uni" -> "%C3%A9" [] OTHER -> t
-DecSingle(t) == CASE t = "e" -> "" [] t = "p25" -> "100%" [] t = "p2F" -> "x/y" [] t = "dbl" -> "%41"
+DecSingle(t) == CASE t = "e" -> "" [] t = "p25" -> "100%" [] t = "p2F" -> "x/y" [] t = "p3F" -> "w?z" [] t = "dbl" -> "%41"
               [] t = "uni" -> "é" [] OTHER -> t
 DecMulti(t) == IF t = "p2F" THEN "x%2Fy" ELSE DecSingle(t)
 
